@@ -486,10 +486,10 @@ func checkAgainstModel(s obs.SK, c skCfg, k *skModel, bud *model.Budget) string 
 			wmin, wmax = k.binMin(c), k.binMax(c)
 		}
 		// numeric equality: the sign of a zero extreme is not part of any property (-5e-324 * 0.5 underflows to -0)
-		if !(gmin == wmin) {
+		if !(gmin == wmin) && !obs.FEq(gmin, wmin) {
 			return fmt.Sprintf("GetMinValue: got %v want %v", gmin, wmin)
 		}
-		if !(gmax == wmax) {
+		if !(gmax == wmax) && !obs.FEq(gmax, wmax) {
 			return fmt.Sprintf("GetMaxValue: got %v want %v", gmax, wmax)
 		}
 	}
